@@ -26,3 +26,14 @@ package types
 //@   props C02 C17
 //@   option noframe
 //@   ensures [C02] a-time-marshals-as-a-json-string: result1 == nil && has_prefix(result0, "\"")
+
+// ---- the YAML decoders reject what their two steps reject, nothing else (C17) ----
+// UnmarshalYAML reads the scalar as text and parses it with the layout UnmarshalJSON
+// uses; time.Parse decides. A test of its own (a length, a character class) would
+// reject texts that UnmarshalJSON accepts — "08:30:00.5" is a valid time.
+//@ func (*SerializableDate).UnmarshalYAML
+//@   props C17 C02
+//@   fails-only-by unmarshal time.Parse
+//@ func (*SerializableTime).UnmarshalYAML
+//@   props C17 C02
+//@   fails-only-by unmarshal time.Parse
